@@ -46,7 +46,7 @@ def gen_conf(rng, v6=False):
                 e['peer_port'] = rng.randrange(1, 65536)
                 key = (e.get('my_subnet'), e['my_port'], e['peer_port'], e['ip_proto'])
             seen.add(key)
-            idx = rng.randrange(1, 2 ** 20)
+            idx = rng.choice([0, 0, 2 ** 20, rng.randrange(1, 2 ** 20)]) if rng.random() < 0.15 else rng.randrange(1, 2 ** 20)
             while idx in used_idx:
                 idx = rng.randrange(1, 2 ** 20)
             used_idx.add(idx)
@@ -154,6 +154,8 @@ def run(ctx):
         sub = rng.random() < 0.6
         conf = {'mode': 'tunnel', 'ip_proto': rng.choice(['udp', 'tcp', 'any']), 'subnets': ('10.1.0.0/16', '10.2.0.0/16')} if sub else \
             {'ip_proto': rng.choice(['tcp', 'udp'])}
+        # the entry's index, including the smallest and the largest the loader draws
+        conf['index_a'] = [0, 1, 2 ** 20, rng.randrange(2 ** 20)][k % 4]
         with CP.History(seed, trace=False, **conf) as h:
             h.oracles = [CP.o_no_escape, CP.o_sad_equals_tracked]
             w = h.w
